@@ -94,7 +94,7 @@ PROPS = {
         design_ref="DESIGN.md section 4, C10",
     ),
     "C11": S(
-        e.C11 + [e.cont1_2],
+        e.C11 + [e.cont1_2, e.opt1, e.opt2],
         explanation="Loop protocol of fill_context: elaborate_context dominates unwrap_context in each iteration, both on the current context.obj; whenever context.obj is rebound, inner_stack=None and children=() are stored on every path before the next elaborate; "
                     "None and PRUNE both leave the loop (PRUNE after hide=True, tested before the rebinding); the loop is bounded by range(100) and its else raises; outside an extraction fill_context re-enters itself under push(<extract's defaults>); "
                     "both lookup paths of the generator-manager unwrapper pass the outermost frame after a registry membership test, and contextlib's base type is registered for both hooks.",
@@ -146,7 +146,7 @@ PROPS = {
         design_ref="DESIGN.md section 4, C16",
     ),
     "C06": S(
-        safety.C06 + [safety.snap, safety.snap8, safety.run1_310, o.alias1, o.exi1_producers, fmt.mode_rules, e.opt1, e.truth2, safety.idkey1, safety.eqkey1] + layout.RULES + formulas.RULES,
+        safety.C06 + [safety.snap, safety.snap8, safety.run1_310, o.alias1, o.exi1_producers, fmt.mode_rules, e.opt1, e.truth2, e.eng9, safety.idkey1, safety.eqkey1] + layout.RULES + formulas.RULES,
         explanation="Structural clauses of 'extraction is a pure observation': (ESC-1) in every function that can run during an extraction, every store into persistent state (globals, module-level containers and objects, "
                     "mutable defaults, thread-local state, closure cells of registered hooks, memoising decorators) is enumerated and its stored value must not be derived from a target (value-provenance propagation with id/len/repr/type/code-object sanitisers); "
                     "(ESC-2) no send/throw/close/asend/athrow/aclose/__next__/next() on anything the package did not create itself, and unwrap results are iterated only as FrameIterator/Sequence; "
@@ -161,7 +161,7 @@ PROPS = {
         design_ref="DESIGN.md section 4, C06",
     ),
     "C07": S(
-        safety.C07 + layout.RULES + formulas.RULES + [e.cont1_2, fmt.cont7, slices.slc8, o.int_intervals],
+        safety.C07 + layout.RULES + formulas.RULES + [e.cont1_2, e.eng10, fmt.cont7, slices.slc8, o.int_intervals],
         explanation="Protocol of the racing-thread snapshot in _lowlevel_cpython_311.inspect_frame: every read through the interpreter-frame pointer (f_frame.contents, iframe fields, addressof, py_object array construction, slot reads) lies inside the retry loop's try; "
                     "the validity token f_lasti is sampled before the first raw read of each attempt; on the CFG, an `assert frame.f_lasti == lasti_before` re-check lies on every path from the raw header reads to the first slot read, between consecutive slot reads, "
                     "and between the last raw read and the acceptance of the snapshot; the AssertionError handler cannot fall through to acceptance; the loop is bounded by a literal and exhaustion raises. "
@@ -189,7 +189,7 @@ PROPS = {
         design_ref="DESIGN.md section 4, C04",
     ),
     "C09": S(
-        slices.C09 + [e.ctx5, e.cont1_2, e.opt1, o.alias1, o.exi1_producers, o.exi2_consumers, o.opc5_version_coverage, o.opc6_exit_templates, o.opc12_block_walk_table, o.opc13_exception_path_exit, o.opc14_async_position_310, o.opc15_exit_sites, o.opc16_exit_sites_310, safety.esc1] + version.API,
+        slices.C09 + [e.ctx5, e.cont1_2, e.opt1, o.alias1, o.exi1_producers, o.exi2_consumers, o.opc5_version_coverage, o.opc6_exit_templates, o.opc12_block_walk_table, o.opc13_exception_path_exit, o.opc14_async_position_310, o.opc15_exit_sites, o.opc16_exit_sites_310, safety.esc1, fmt.ref1] + version.API,
         explanation="inner_stack is assigned from extract_child(<manager's generator>, for_task=False) only under `not context.is_exiting` in both sibling registrations; the four-way classification of elaborate_exit_stack assigns method names in sync/async pairs that are real methods of ExitStack/AsyncExitStack "
                     "on every supported interpreter, and every private contextlib name it reads (_exit_callbacks, element order (is_sync, callback), wrapper name _exit_wrapper, free variables args/kwds, __wrapped__, MethodType exit wrappers, _GeneratorContextManagerBase attributes) "
                     "agrees with contextlib.py of CPython 3.9-3.12; the child's is_async is the negation of is_sync; children are unfolded with fill_context, appended in deque (registration) order and assigned once.",
@@ -231,7 +231,7 @@ PROPS = {
         design_ref="DESIGN.md section 4, C19",
     ),
     "C20": S(
-        fmt.C20 + [o.exi1_producers, o.alias1, o.opc1_cache_normalisation, o.opc6_exit_templates, o.opc12_block_walk_table, o.opc13_exception_path_exit, o.opc14_async_position_310, version.ver1_opcodes] + version.API,
+        fmt.C20 + [o.exi1_producers, o.alias1, o.opc1_cache_normalisation, o.opc6_exit_templates, o.opc12_block_walk_table, o.opc13_exception_path_exit, o.opc14_async_position_310, o.opc16_exit_sites_310, version.ver1_opcodes] + version.API,
         explanation="The trickery call is inside a try whose Exception handler warns with InspectionWarning and assigns the referents result (never re-raises), and referents is used when trickery is unavailable; the mode switch is a plain module-level global (not thread-local), "
                     "written only in set_trickery_enabled and _check_trickery_available and always under _trickery_lock; set_trickery_enabled stores its argument unchanged; _check_trickery_available returns the stored value whenever it is not None and re-tests after taking the lock; "
                     "a failing self-test warns and stores False; the referents producer filters bound __exit__/__aexit__ methods, derives is_async from the name, takes obj from __self__, appends the exiting entry last, and roots the scan at the owning generator exactly on 3.11/3.12.",
@@ -258,7 +258,7 @@ PROPS = {
         design_ref="DESIGN.md section 4, C17",
     ),
     "C03": S(
-        [slices.slc4, e.eng1, e.eng34, cc.eng6, e.truth1, e.truth2, e.asend1, e.asend2, e.eng7, e.eng5, safety.idkey1] + version.API,
+        [slices.slc4, e.eng1, e.eng34, cc.eng6, e.truth1, e.truth2, e.asend1, e.asend2, e.eng7, e.eng5, e.eng10, e.opt7, glue.glue14, safety.idkey1] + version.API,
         explanation="Thin: structural necessary conditions of 'the frames are the path an exception would take'. The three built-in unwrappers, as truth tables over the tests they make: a suspended generator / coroutine / "
                     "async generator unwraps to (its frame, what it delegates to) in that order, with attributes of its own family that exist on every supported interpreter (SLC-4, VER-5, VER-5b); unwrap results take the "
                     "unwrapped item's place in order, one level deeper, and the queue is drained before a frame is elaborated (ENG-3, ENG-4); the only bound on the chain is the counter of unwraps *without progress*, reset at every "
@@ -273,7 +273,7 @@ PROPS = {
         design_ref="DESIGN.md section 13.4",
     ),
     "C14": S(
-        cc.C14 + [safety.thr2, e.opt56, e.eng1, e.eng2, o.alias1, o.exi1_producers, o.exi2_consumers] + version.API,
+        cc.C14 + [safety.thr2, e.opt56, e.eng1, e.eng2, o.alias1, o.exi1_producers, o.exi2_consumers, o.int_intervals, o.opc3_prologue, o.opc3b_fillers, o.opc3c_prologue_eval, o.opc5_version_coverage] + version.API,
         explanation="Thin: structural necessary conditions in the Trio glue. A nursery context's obj is manager._nursery and its children are exactly [extract_child(t, for_task=True) for t in that nursery's child_tasks] "
                     "(unfiltered, in order); a Task unwraps to task.coro (TRIO-1); extract_child(for_task=True) returns a stub exactly when recursion was not requested (OPT-5/6); the worker thread of to_thread.run_sync is matched "
                     "by identity of the name object, not by its value (THR-2); the search for the Trio runner skips thread-local dicts without a 'runner' entry instead of failing (TRIO-2).",
